@@ -16,7 +16,9 @@ DIMS["fmt"] = ["glyf_colr_0", "glyf", "cff_colr_0", "cff2_colr_0"]
 DIMS["solidify"] = [True, False]
 FULL = dict(scenes.DIMS)
 FULL.update(DIMS)
-K = {"quick": 2, "thorough": 3}
+K = {"quick": 2, "thorough": 2}
+# thorough: <= 2 deviations over all dimensions + every state with 3 deviations among the core dimensions (`--only 3` = full level 3)
+CORE3 = ("outline", "place", "where", "donor_paint", "copy_paint", "grp", "stack", "user", "tol", "vb_b", "nglyphs")
 SOLIDS = ["#00C0FF", "#FFA000C0", "#8020F0", "#40FF40"]
 
 
@@ -204,13 +206,17 @@ def run(report, tier, only=None):
 
     selftest.run(report)
     k = int(only) if only and only.isdigit() else K[tier]
-    lattice.explore(report, DIMS, k, execute, relevant=scenes.relevant, timeout=300)
+    deep = 3 if tier == "thorough" and not (only and only.isdigit()) else None
+    lattice.explore(report, DIMS, k, execute, relevant=scenes.relevant, timeout=300, deep_dims=CORE3, deep_k=deep)
+    report.extra["deep_sublattice"] = {"dims": [d for d in DIMS if d in CORE3], "bound": deep} if deep else None
     # the plain glyf build has its own code path (components, single-component collapse): a second
     # lattice with glyf as the base format, so that two scene deviations are explored under it as well
     dims_glyf = {k_: v for k_, v in DIMS.items() if k_ != "fmt"}
     dims_glyf["fmt"] = ["glyf"]
-    lattice.explore(report, dims_glyf, k, lambda dev: execute(dict(dev, fmt="glyf")), relevant=scenes.relevant, timeout=300, tag="glyf")
+    lattice.explore(report, dims_glyf, k, lambda dev: execute(dict(dev, fmt="glyf")), relevant=scenes.relevant, timeout=300, tag="glyf", deep_dims=CORE3, deep_k=deep)
     report.extra["deviation_bound"] = k
+    if deep:
+        report.assumptions.append("thorough tier: every state with <= 2 deviations over all dimensions plus every state with 3 deviations among the core dimensions listed under deep_sublattice in the evidence")
     report.rule = (
         "E1 over the scene/config lattice x {glyf_colr_0, glyf, cff_colr_0, cff2_colr_0} x {solid-only, with gradients}, <= %d deviations; "
         "placed outlines (COLRv0 layers / glyf components) are matched one-to-one with the source shapes by Hausdorff distance, "
